@@ -1,7 +1,8 @@
 #!/usr/bin/env python3
 """Translator: regenerate the Lean data the theorems are about from /repo's
-current source.  Reads rules.json with `json` and the Python sources with
-`ast` (the repository is never imported here).  Writes
+current source.  The tables (rules, element-to-rule map, names, enumerations, exception
+classes, dispatch tables) are read from the loaded package by translator/introspect.py
+(subprocess); the write-site inventory of C11 reads the sources with `ast`.  Writes
 lean/MetapypeModel/Gen/*.lean (write-if-changed).
 
 Exit 0 on success.  A source that cannot be rendered (e.g. a children spec
@@ -184,74 +185,38 @@ def write_if_changed(path, text):
 
 def generate(repo=REPO, gen=GEN):
     src = os.path.join(repo, "src", "metapype")
-    with open(os.path.join(src, "eml", "rules.json"), encoding="utf-8") as f:
-        # keep duplicate keys visible: Python's json keeps the last one, like the library
-        rules = json.load(f)
-    names_tree = parse(os.path.join(src, "eml", "names.py"))
-    names_consts = module_str_constants(names_tree)
-    rule_tree = parse(os.path.join(src, "eml", "rule.py"))
-    rule_consts = module_str_constants(rule_tree)
-
-    # node_mappings
-    mappings = None
-    for n in rule_tree.body:
-        if isinstance(n, ast.Assign) and isinstance(n.targets[0], ast.Name) and n.targets[0].id == "node_mappings":
-            if not isinstance(n.value, ast.Dict):
-                raise TranslationError("node_mappings is not a dict literal")
-            mappings = {}
-            for k, v in zip(n.value.keys, n.value.values):
-                mappings[resolve(k, rule_consts, names_consts)] = resolve(v, rule_consts, names_consts)
-    if mappings is None:
-        raise TranslationError("node_mappings not found")
-
-    # mixed-content tuple of Rule.validate_rule
-    vr = find_func(rule_tree, "validate_rule", "Rule")
-    mixed = None
-    for n in ast.walk(vr):
-        if isinstance(n, ast.Compare) and len(n.ops) == 1 and isinstance(n.ops[0], ast.In) \
-                and isinstance(n.comparators[0], ast.Tuple):
-            mixed = [resolve(e, rule_consts, names_consts) for e in n.comparators[0].elts]
-    if mixed is None:
-        raise TranslationError("mixed-content tuple not found in Rule.validate_rule")
-
-    # content-rule dispatch chain of _validate_content
-    vc = find_func(rule_tree, "_validate_content", "Rule")
-    dispatch = []
-    for n in ast.walk(vc):
-        if isinstance(n, ast.Compare) and isinstance(n.left, ast.Name) and n.left.id == "content_rule" \
-                and len(n.ops) == 1 and isinstance(n.ops[0], ast.Eq):
-            dispatch.append(resolve(n.comparators[0], rule_consts, names_consts))
-
-    ve = enum_members(parse(os.path.join(src, "eml", "validation_errors.py")), "ValidationError")
-    ew = enum_members(parse(os.path.join(src, "eml", "evaluation_warnings.py")), "EvaluationWarning")
-    # ValidationError members referenced by rule.py / validate.py
+    # ---- the tables, as the loaded package presents them to its callers (translator/introspect.py, run in a subprocess under
+    # the interpreter that has the repository's dependencies).  Introspection, not source pattern matching: a table that is moved,
+    # built differently or reordered in the file is the same table, and a harmless rewrite must not break the tie.
+    import subprocess
+    py = os.environ.get("METAPYPE_PYTHON", "/venv/bin/python")
+    p = subprocess.run([py, "-W", "ignore", os.path.join(HERE, "introspect.py"), repo], stdout=subprocess.PIPE, stderr=subprocess.PIPE, text=True,
+                       env=dict(os.environ, PYTHONPATH=os.path.join(repo, "src")), timeout=300)
+    if p.returncode != 0:
+        raise TranslationError("introspection of the package failed: " + (p.stderr.strip().split("\n") or ["?"])[-1][:300])
+    intro = json.loads(p.stdout)
+    rules = intro["rules"]
+    mappings = dict((k, v) for k, v in intro["mappings"])
+    names_consts = dict((k, v) for k, v in intro["names"])
+    mixed = sorted(intro["mixed_rules"])
+    dispatch = sorted(intro["content_dispatch"])
+    ve = intro["validation_errors"]
+    ew = intro["evaluation_warnings"]
+    family = intro["exception_family"]
+    ev_rules = [(k, v) for k, v in intro["evaluate_rules"]]
+    protected = intro["xslt_protected"]
+    # ValidationError members referenced anywhere in the package (source walk; informational for C04)
     used = set()
-    for t in (rule_tree, parse(os.path.join(src, "eml", "validate.py"))):
-        for n in ast.walk(t):
-            if isinstance(n, ast.Attribute) and isinstance(n.value, ast.Name) and n.value.id == "ValidationError":
-                used.add(n.attr)
-
-    # exception family
-    exc_tree = parse(os.path.join(src, "eml", "exceptions.py"))
-    family = {}
-    for n in exc_tree.body:
-        if isinstance(n, ast.ClassDef):
-            family[n.name] = [b.id for b in n.bases if isinstance(b, ast.Name)]
-
-    # evaluate.rules dispatch table
-    ev_tree = parse(os.path.join(src, "eml", "evaluate.py"))
-    ev_rules = None
-    for n in ev_tree.body:
-        if isinstance(n, ast.Assign) and isinstance(n.targets[0], ast.Name) and n.targets[0].id == "rules":
-            ev_rules = [(resolve(k, {}, names_consts), v.id) for k, v in zip(n.value.keys, n.value.values)]
-    if ev_rules is None:
-        raise TranslationError("evaluate.rules not found")
-
-    # normalize.py: protected ancestors of the text() template
-    import re
-    with open(os.path.join(src, "model", "normalize.py"), encoding="utf-8") as f:
-        norm_src = f.read()
-    protected = re.findall(r"ancestor::([A-Za-z_][\w.-]*)", norm_src)
+    for root_dir, _, files in os.walk(src):
+        for fn in files:
+            if fn.endswith(".py") and fn not in ("harness.py",):
+                try:
+                    tr = parse(os.path.join(root_dir, fn))
+                except SyntaxError:
+                    continue
+                for n in ast.walk(tr):
+                    if isinstance(n, ast.Attribute) and isinstance(n.value, ast.Name) and n.value.id == "ValidationError":
+                        used.add(n.attr)
 
     out = []
     out.append("-- GENERATED by translator/gen_tables.py from the repository's current source. Do not edit.\n"
